@@ -17,9 +17,22 @@ use crate::simfs::SimFs;
 use crate::{dbutil, watch};
 
 pub fn plan(tier: &str) -> u64 {
-    match tier {
-        "quick" => 64 + 24,
-        _ => 800 + 300,
+    n_history(tier) + n_forced(tier) + n_split(tier)
+}
+
+fn n_forced(tier: &str) -> u64 {
+    if tier == "quick" {
+        24
+    } else {
+        300
+    }
+}
+
+fn n_split(tier: &str) -> u64 {
+    if tier == "quick" {
+        480
+    } else {
+        4800
     }
 }
 
@@ -87,10 +100,14 @@ pub fn verify_view(
                         .filter(|f| f.smallest.user_key.as_slice() <= k.as_slice() && k.as_slice() <= f.largest.user_key.as_slice())
                         .map(|f| format!("L{}#{}[{}@{}..{}@{}]", f.level, f.number, show(&f.smallest.user_key), f.smallest.sequence, show(&f.largest.user_key), f.largest.sequence))
                         .collect();
+                    let layout: Vec<String> = sess.db().verif_files().iter().take(80)
+                        .map(|f| format!("L{}#{}[{}@{}..{}@{}]", f.level, f.number, show(&f.smallest.user_key[..f.smallest.user_key.len().min(6)]), f.smallest.sequence, show(&f.largest.user_key[..f.largest.user_key.len().min(6)]), f.largest.sequence))
+                        .collect();
+                    let snapshot_sequence = snapshot.map(|s| format!("{s:?}"));
                     out.violate(
                         format!("{prop}/snapshot-get-mismatch/{class}/{when}"),
                         json!({"ctx": ctx, "key": show(k), "expected": show_opt(expected.map(|v| v.as_slice())), "got": show_opt(got.as_deref()),
-                            "files_covering_key": holders, "recent_ops": sess.recent_ops(12)}),
+                            "files_covering_key": holders, "layout": layout, "snapshot": snapshot_sequence, "recent_ops": sess.recent_ops(12)}),
                     );
                     return;
                 }
@@ -442,13 +459,158 @@ fn case_forced(out: &mut CaseOut, seed: u64, idx: u64) {
     out.sample = Some(json!({"family": "forced-window", "ctx": ctx}));
 }
 
+/// Few keys, many versions per key, values sized so that a table file holds only a handful of
+/// entries: compaction outputs are routinely cut between two versions of one user key, and short
+/// lived snapshots keep old versions alive across one compaction and let the next one drop them.
+/// Partial-range manual compactions then pick inputs next to such cuts. Every snapshot and the
+/// latest state are re-read after every version install.
+fn case_split(out: &mut CaseOut, tier: &str, seed: u64, idx: u64) {
+    let mut rng = Rng::new(mix(&[seed, idx], "c03-s"));
+    let d = director();
+    d.reset(rng.next_u64());
+    let family = [KeyFamily::OneByte, KeyFamily::Ascii, KeyFamily::FfRuns, KeyFamily::Binary][(idx % 4) as usize];
+    let cfg = Config {
+        memtable: *rng.pick(&[256usize, 256, 256, 512]),
+        file: *rng.pick(&[512u64, 512, 1024]),
+        block: *rng.pick(&[64usize, 256]),
+        reuse: rng.chance(0.5),
+    };
+    let fs = SimFs::from_image(&dbutil::root_image());
+    let mut sess = Session::new(fs, cfg);
+    if let Err(e) = sess.open() {
+        out.violate("C03/open-failed", json!({"error": e}));
+        return;
+    }
+    let pool_size = if rng.chance(0.8) { rng.range(4, 12) } else { rng.range(12, 30) } as usize;
+    let pool = gen::key_pool(&mut rng, family, pool_size);
+    let value_len = *rng.pick(&[120usize, 200, 300, 300, 500]);
+    let quiesce = rng.chance(0.5);
+    let n_ops = if tier == "quick" { 600 } else { rng.range(500, 1500) as usize };
+    let del_p = *rng.pick(&[0.2f64, 0.35, 0.5]);
+    let snap_max = rng.range(2, 5) as usize;
+    let mut live: Vec<LiveSnapshot> = vec![];
+    let mut counter = 0u64;
+    let mut last_installs = 0u64;
+    let mut outlived: BTreeSet<String> = BTreeSet::new();
+    let universe: BTreeSet<Vec<u8>> = pool.iter().cloned().collect();
+    let ctx = json!({"family": "split-hunter", "config": cfg.describe(), "keys": family.name(), "pool": pool.len(), "value_len": value_len, "quiesce_after_each_op": quiesce});
+    let mut degenerate = None;
+
+    for opi in 0..n_ops {
+        watch::tick();
+        let roll = rng.below(100);
+        if roll < 52 {
+            let k = rng.pick(&pool).clone();
+            let op: WriteOp = if rng.chance(del_p) {
+                (k, None)
+            } else {
+                counter += 1;
+                let len = 8 + rng.usize_below(value_len);
+                (k, Some(gen::tagged_value(&mut rng, &format!("v{counter}:"), len)))
+            };
+            if let Err(e) = sess.write(vec![op]) {
+                degenerate = Some(e);
+                break;
+            }
+        } else if roll < 64 {
+            if live.len() < snap_max {
+                let snapshot = sess.db().get_snapshot();
+                live.push(LiveSnapshot {
+                    snapshot,
+                    frozen: sess.model.clone(),
+                    created_at_op: opi,
+                    shape_at_creation: String::new(),
+                    picks_at_creation: pick_counts(),
+                    verifications: 0,
+                });
+                out.add("snapshots_taken", 1);
+            }
+        } else if roll < 78 {
+            if !live.is_empty() {
+                let i = rng.usize_below(live.len());
+                let ls = live.remove(i);
+                verify_view(out, &sess, Some(&ls.snapshot), &ls.frozen, &universe, "before-release", &ctx, "C03");
+                let now = pick_counts();
+                let (a, m) = (now.0 - ls.picks_at_creation.0, now.1 - ls.picks_at_creation.1);
+                if a + m > 0 {
+                    outlived.insert(format!("split/outlived-auto{}-manual{}", (a > 0) as u8, (m > 0) as u8));
+                }
+                out.max("snapshot_lifetime_ops", (opi - ls.created_at_op) as u64);
+                out.add("snapshot_verifications", ls.verifications + 1);
+                sess.db().release_snapshot(ls.snapshot);
+            }
+        } else if roll < 97 {
+            let mut a = rng.pick(&pool).clone();
+            let mut b = rng.pick(&pool).clone();
+            if a > b {
+                std::mem::swap(&mut a, &mut b);
+            }
+            match rng.below(4) {
+                0 => sess.compact(None, Some(&b)),
+                1 => sess.compact(Some(&a), None),
+                _ => sess.compact(Some(&a), Some(&b)),
+            }
+            out.add("compact_range_calls", 1);
+        } else {
+            sess.compact(None, None);
+            out.add("compact_range_calls", 1);
+        }
+        if quiesce {
+            sess.wait_quiescent(Duration::from_secs(10));
+        }
+        let installs = d.note_count("version.install");
+        if installs != last_installs {
+            last_installs = installs;
+            verify_view(out, &sess, None, &sess.model, &universe, "latest-after-version-install", &ctx, "C03");
+            for ls in live.iter_mut() {
+                ls.verifications += 1;
+                verify_view(out, &sess, Some(&ls.snapshot), &ls.frozen, &universe, "after-version-install", &ctx, "C03");
+            }
+        }
+        if out.is_violated() {
+            break;
+        }
+    }
+    for ls in live.drain(..) {
+        if !out.is_violated() && degenerate.is_none() {
+            verify_view(out, &sess, Some(&ls.snapshot), &ls.frozen, &universe, "before-release", &ctx, "C03");
+        }
+        sess.db().release_snapshot(ls.snapshot);
+    }
+    if let Some(e) = degenerate {
+        out.inconclusive(format!("degenerate: write refused: {e}"));
+    }
+    // how often one user key straddled two files of one level (the layouts this family is after)
+    let files = sess.db().verif_files();
+    let mut straddles = 0u64;
+    for a in &files {
+        for b in &files {
+            if a.level == b.level && a.level > 0 && a.number != b.number && a.largest.user_key == b.smallest.user_key {
+                straddles += 1;
+            }
+        }
+    }
+    out.add("final_layout_same_key_straddles", straddles);
+    for (name, n) in d.note_counts() {
+        out.add(&format!("note.{name}"), n);
+    }
+    sess.close();
+    for o in outlived {
+        out.nontrivial(format!("{}/{}/q{}", family.name(), o, quiesce as u8));
+    }
+    out.sample = Some(json!({"family": "split-hunter", "ctx": ctx, "ops": n_ops}));
+}
+
 pub fn run_case(tier: &str, seed: u64, idx: u64) -> CaseOut {
     let mut out = CaseOut::new();
     let nh = n_history(tier);
+    let nf = n_forced(tier);
     if idx < nh {
         case_history(&mut out, tier, seed, idx);
-    } else {
+    } else if idx < nh + nf {
         case_forced(&mut out, seed, idx - nh);
+    } else {
+        case_split(&mut out, tier, seed, idx - nh - nf);
     }
     out
 }
